@@ -279,8 +279,14 @@ func (c *c08) Run(cs core.Case) core.Result {
 			return r.Done()
 		}
 		for _, op := range []string{"div", "times", "inverse", "pow", "mulslice", "muladdslice"} {
-			for k := 0; k < 2; k++ {
-				out, err := exec.Command(exe, op, fmt.Sprint(p.Seed+int64(k))).CombinedOutput()
+			for k, gmp := range []string{"", "1", "3", "6", "7"} {
+				cmd := exec.Command(exe, op, fmt.Sprint(p.Seed+int64(k)))
+				if gmp != "" {
+					// table construction must not depend on the number of CPUs the
+					// process starts with
+					cmd.Env = append(os.Environ(), "GOMAXPROCS="+gmp)
+				}
+				out, err := cmd.CombinedOutput()
 				r.Count("fresh_processes", 1)
 				if err != nil {
 					r.Violate("wrong-result-as-first-operation|"+op, "%s as the first field operation of a fresh process: %v\n%s", op, err, tailStr(string(out), 600))
